@@ -286,6 +286,19 @@ func (e *Exec) runHeap() *Violation {
 		}
 		fill(keys[:S])
 		before, beforeObj := liveHeap()
+		// proportionality: what the filled tree keeps alive against what it stores. The
+		// allowance is deliberately generous (1.5 KiB per key plus 32 bytes per key
+		// byte — a collation sort key is about 5-6 bytes per byte of text — plus
+		// 256 KiB); a tree that pins the kilobytes around each key is far above it.
+		keyBytes := 0
+		for _, k := range keys[:S] {
+			keyBytes += len(k)
+		}
+		allowance := uint64(256<<10) + uint64(S)*1536 + uint64(keyBytes)*32
+		if before > base+allowance {
+			v = e.viol("heap", "C17-proportional", 0, "%s: a tree just filled with %d keys (%d key bytes in all) keeps %d bytes alive (allowance %d)", kt, S, keyBytes, before-base, allowance)
+			return
+		}
 		switch s.Op {
 		case "hquery":
 			for i := 0; i < N; i++ {
